@@ -735,3 +735,19 @@ Theorem C01_unified_rotation_column_sound :
       WTrace h (resolve_flat h) strict n e ds tr st -> WTrace ha (resolve_flat ha) strict n e' ds tr st.
 Proof. exact uni_col_sound. Qed.
 Print Assumptions C01_unified_rotation_column_sound.
+
+(* ONE column for every call of loop_restructure_helper (HelperCol.helper_col_of: plain rotation 1, early
+   return 3, rotation after unification 4), and what it means: the hierarchy the implementation produced has
+   every flat walk of the hierarchy before the call - for some set F of fresh control variables, from every
+   original block, under every decision list.  On the quick tier the column is 1, 3 or 4 on every call the
+   pipeline makes. *)
+From V Require Import Model.HelperCol.
+Theorem C01_loop_helper_column_sound :
+  forall h ha lvl loop headers entries exiting exits doms bnames vnames strict,
+    let c := helper_col_of h ha lvl loop headers entries exiting exits doms bnames vnames in
+    c = 1%Z \/ c = 3%Z \/ c = 4%Z ->
+    exists F : Z -> Prop, forall n e e' ds tr st,
+      (exists b p, find h n = Some b /\ n_kind b = KOrig p) -> E F e e' ->
+      WTrace h (resolve_flat h) strict n e ds tr st -> WTrace ha (resolve_flat ha) strict n e' ds tr st.
+Proof. exact helper_col_sound. Qed.
+Print Assumptions C01_loop_helper_column_sound.
